@@ -179,6 +179,16 @@ pub fn run_in_children(prop: &str, dir: &std::path::Path, cases: &[String], per_
                 }
             }
         }
+        if done == total {
+            // all cases answered: let the child leave on its own (it flushes coverage counters at exit), kill only a straggler
+            let t0 = Instant::now();
+            while t0.elapsed() < Duration::from_secs(3) {
+                if let Ok(Some(_)) = child.try_wait() {
+                    break;
+                }
+                std::thread::sleep(Duration::from_millis(5));
+            }
+        }
         let _ = child.kill();
         let status = child.wait().ok();
         let _ = reader.join();
